@@ -16,6 +16,7 @@ from dsl import params_json
 from gen import strip
 from props.simcommon import base_out, replay_case, run_panel, sim_cases
 
+CANARY = True
 RULE = ("cases = generated dyadic specifications x batches of 1/6/7/11 agents x 1-4 periods x random subsets of additional targets "
         "(auxiliary functions, utility, constraints, deterministic transitions); distinct = structural signature + target classes; "
         "evaluations = frame cells checked")
